@@ -64,11 +64,69 @@ def lexer_generate(run):
     return files
 
 
+TRACE_LEXER_CFG = """CONSTANTS
+  Dev <- DevIntended
+  TracePath = "%s"
+SPECIFICATION TraceSpec
+INVARIANTS Gen
+POSTCONDITION AllConsumed
+CHECK_DEADLOCK FALSE
+"""
+
+
+def repo_corpus(run):
+    """Inputs of the repository's own tests, collected through the verif hook in lexer.New (VERIF_LEX_CORPUS)."""
+    path = os.path.join(run.dir, "corpus.ndjson")
+    env = dict(vp.GOENV, VERIF_LEX_CORPUS=path)
+    p = subprocess.run(["go", "test", "-tags", "verif", "-vet=off", "-count=1", "./..."], cwd=vp.REPO, env=env,
+                       capture_output=True, text=True)
+    if not os.path.exists(path):
+        open(path, "w").close()
+    return path
+
+
+def lexer_traces(run, prop):
+    """Record traces of the real lexer and validate them against spec/Trace_Lexer.tla (16 TLC processes)."""
+    shards = 16
+    corpus = repo_corpus(run)
+    base = os.path.join(run.dir, "lextraces.ndjson")
+    nrandom = 1500 if run.tier == "quick" else 20000
+    n = int(run.harness_cmd(["lextrace", "-corpus", corpus, "-fixtures", vp.REPO, "-random", str(nrandom), "-out", base,
+                             "-shards", str(shards)]).strip())
+    jobs = [dict(module="Trace_Lexer", cfg=TRACE_LEXER_CFG % ("%s.%d" % (base, s)), name="Trace_Lexer_%d" % s,
+                 timeout=3000, workers=1) for s in range(shards) if os.path.getsize("%s.%d" % (base, s)) > 0]
+    sts = run.tlc_many(jobs, parallel=16)
+    verdicts = 0
+    for st in sts:
+        vpath, cnt = run.records(st)
+        verdicts += cnt
+        for line in open(vpath):
+            v = json.loads(line)
+            if v["drift"]:
+                run.counts["drift"] += 1
+                if len(run.notes) < 5:
+                    run.notes.append("trace drift %s: %s" % (v["id"], json.dumps(v["drift"])[:300]))
+            if prop == "C19" and v["c19"] != "ok":
+                run.results.append({"id": v["id"], "status": "viol", "kind": v["c19"], "family": "lextrace",
+                                    "msg": "trace validation: the recorded tokens violate the C19 predicate '%s'" % v["c19"],
+                                    "tags": ["trace", "last:" + v["ended"]], "case": {"id": v["id"]}})
+    if verdicts != n:
+        raise vp.Infra("trace validation consumed %d of %d traces" % (verdicts, n))
+    run.counts["traces"] += n
+    return n
+
+
 def lexer_check(run, prop, rule):
     files = lexer_generate(run)
     for f in files:
         run.replay("lex", f, prop=prop, name="lex-%s-%d" % (prop, files.index(f)))
         run.add_samples(f, 1)
+    if prop == "C19":
+        lexer_traces(run, prop)
+        rule += ("; plus trace validation: token traces recorded from the real lexer on the inputs of the repository's own "
+                 "tests, its fixture files and seeded random lexeme soups are stepped against the specification by TLC "
+                 "(spec/Trace_Lexer.tla), which also evaluates the C19 predicates on the recorded tokens and compares the "
+                 "lexer's private mode state after every token")
     return vp.finish(run, "model_checking", rule, exhaustive=True,
                      assumptions=["TLC 1.8.0 and the CommunityModules Json module",
                                   "the harness's conversion of (line, column) to byte offsets"])
@@ -567,9 +625,36 @@ def c20(run):
                      exhaustive=True)
 
 
+TRACE_API_CFG = """CONSTANTS
+  TracePath = "%s"
+SPECIFICATION Spec
+INVARIANTS Gen
+CHECK_DEADLOCK FALSE
+"""
+
+
 def api_traces(run):
-    """placeholder until Trace_Api is bound"""
-    return
+    """Record the package-state trace of the repository's own tests (verif hooks, VERIF_API_TRACE) and validate it
+    against spec/Trace_Api.tla."""
+    path = os.path.join(run.dir, "apitrace.ndjson")
+    env = dict(vp.GOENV, VERIF_API_TRACE=path)
+    subprocess.run(["go", "test", "-tags", "verif", "-vet=off", "-count=1", "."], cwd=vp.REPO, env=env, capture_output=True, text=True)
+    if not os.path.exists(path) or os.path.getsize(path) == 0:
+        raise vp.Infra("no API trace was recorded from the repository's tests (hooks missing?)")
+    n = sum(1 for _ in open(path))
+    st = run.tlc("Trace_Api", TRACE_API_CFG % path, name="Trace_Api", timeout=900, workers=1)
+    vpath, cnt = run.records(st)
+    rep = json.loads(open(vpath).readline())
+    run.counts["traces"] += 1
+    run.counts["trace_events"] = rep["consumed"]
+    if rep["bad"]:
+        line, point, model, logged = rep["bad"]
+        run.results.append({"id": "repo-tests-api-trace line %d" % line, "status": "viol", "kind": "state-changed", "family": "apitrace",
+                            "msg": "trace validation: hook point %s left the package state as %s; the model was in %s and "
+                                   "this operation may not change it that way" % (point, json.dumps(logged), json.dumps(model)),
+                            "tags": ["trace", point], "case": {"id": "line %d" % line}})
+    elif rep["consumed"] != n:
+        raise vp.Infra("API trace validation consumed %d of %d lines" % (rep["consumed"], n))
 
 
 def replay(path):
